@@ -278,12 +278,13 @@ class StatementLineageHolder(SubQueryLineageHolder, ColumnLineageMixin):
         self._property_setter(value, NodeTag.DROP)
 
     @property
-    def rename(self) -> set[tuple[Table, Table]]:
-        return {
+    def rename(self) -> list[tuple[Table, Table]]:
+        # a list in the order the pairs were added: RENAME TABLE a TO b, b TO c is order sensitive
+        return [
             (src, tgt)
             for src, tgt, attr in self.graph.edges(data=True)
             if attr.get("type") == EdgeType.RENAME
-        }
+        ]
 
     def add_rename(self, src: Table, tgt: Table) -> None:
         self.graph.add_edge(src, tgt, type=EdgeType.RENAME)
@@ -385,7 +386,8 @@ class SQLLineageHolder(ColumnLineageMixin):
             elif holder.rename:
                 for table_old, table_new in holder.rename:
                     g = nx.relabel_nodes(g, {table_old: table_new})
-                    g.remove_edge(table_new, table_new)
+                    if g.has_edge(table_new, table_new):
+                        g.remove_edge(table_new, table_new)
                     if g.degree[table_new] == 0:
                         g.remove_node(table_new)
             else:
